@@ -397,6 +397,8 @@ def check_c08(tier, seed):
             nhist += len(hs)
             lkfs = open_conc("C06", "lin")
             for h in hs:
+                if h["id"] in nl and match_lin(h, lkfs):
+                    known[match_lin(h, lkfs)["id"]] += 1
                 if h["id"] in nl and not match_lin(h, lkfs):
                     viol.append((target, "a completed call is not visible to a later one (non-linearizable with real-time order): " + hbrief(h), {"history": h}))
             if not cov["samples"] and hs:
